@@ -1,6 +1,6 @@
 (* Extraction of the executable C06 model (ExtrOcamlBasic only). *)
 From Coq Require Import ExtrOcamlBasic.
 From Coq Require Extraction.
-From LJT Require Import model.Transform.
+From LJT Require Import model.Transform model.TransformExt.
 Extraction Language OCaml.
-Extraction "x_c06.ml" transform tj_transform perfect_transform get_subsamp_l tj_transform_buf_size transform_pad.
+Extraction "x_c06.ml" transform tj_transform perfect_transform get_subsamp_l tj_transform_buf_size transform_pad transform2 tj_transform2.
